@@ -163,9 +163,10 @@ let tx_vals idx s =
       | _ -> failwith ("value " ^ kv)) (split ',' s)
 
 (* the model labels of one harness operation; `post` supplies what the implementation chose where the model has an oracle *)
+let alloc_repaired = ref false
 let labels_of (op : string) (pre : world) (post : world) (last : pval option) : label list =
   let f = split ':' op in
-  let orc v code = { o_verdict = v; o_code = n code; o_last = last;
+  let orc v code = { o_verdict = v; o_code = n code; o_last = last; o_alloc = !alloc_repaired;
                      o_master = (match post.w_cfg with Some { c_master = Some m; _ } -> m | _ -> n 0) } in
   match f with
   | [ "cfg" ] -> [ LCreateCfg [] ]
@@ -291,7 +292,11 @@ let monitors id sc (o : obs) =
                                                                               (let rec pre a b = match a, b with [], _ -> true | x :: a', y :: b' -> x = y && pre a' b' | _ -> false in pre q p)) w.w_pmap) t.t_values in
        let bad = List.filter (fun (p, v) -> match vget p w.w_pmap with Some x -> not (pval_eqb x v) | None -> true) t.t_values in
        let restored = bad <> [] && List.for_all (fun (p, _) -> stale_rollback w (int_of_n rev) p (vget p w.w_pmap)) bad in
-       specviol id (if under_tomb then "c20_child_under_tombstone_not_stored"
+       (* shape of the open finding: the applied revision names a change whose apply failed or was aborted (the rollback of
+          a later transaction set Applied.Revision to its rollback index) *)
+       let names_failed = t.t_ca = Failed || t.t_ca = Aborted in
+       specviol id (if names_failed then "c20_applied_revision_names_unapplied_change"
+                    else if under_tomb then "c20_child_under_tombstone_not_stored"
                     else if restored then "c20_rollback_restored_shadowed_value" else "c20_consistency_applied")
          (Printf.sprintf "applied revision %d, Applied.Values=[%s] device=[%s] in_sync=%b change=[%s] %s" (int_of_n rev) (vals_str w.w_pmap)
             (String.concat "," (List.map (fun (p, v) -> path_str p ^ "=" ^ string_of_int (int_of_n v)) w.w_dev)) (in_sync w c) (vals_str t.t_values) ctx)
@@ -301,7 +306,7 @@ let monitors id sc (o : obs) =
 let () =
   each_line (function
     | [ "p3.step"; id; scn; op; res; reqs; t; c; e; d ] ->
-      let sc = get_scen scn in
+      let sc = get_scen (List.hd (split ':' id) ^ "/" ^ scn) in
       (match split ':' op with
        | [ "cfg"; v ] when sc.cmap = [] && (match sc.prev with Some { world = { w_cfg = None; _ }; _ } -> true | _ -> false) ->
          sc.cmap <- tx_vals 0 v
@@ -356,7 +361,11 @@ let () =
             let ls = labels_of op pre.world post last in
             let m = run_labels pre.world ls in
             (m, ls) in
+          alloc_repaired := false;
           let m0, ls0 = try_last None in
+          (* the nil-map panic of commitChange / commitRollback (open finding) and its proposed repair: when the model of the
+             code as it is panics and the implementation does not, the step is validated against the repaired behaviour *)
+          let m0, ls0 = if m0.w_panicked && not impl_panic then (alloc_repaired := true; stat "nil-map.allocated"; try_last None) else (m0, ls0) in
           let matched, m, via_last =
             if same_state m0 post then (true, m0, false)
             else begin
@@ -376,7 +385,11 @@ let () =
               mismatch id (Printf.sprintf "panic: model=%b impl=%b after [%s]" m.w_panicked impl_panic (trace sc))
           end else if not matched then begin
             mismatch id (Printf.sprintf "step %s: %s; after [%s]" op (describe_diff m0 post) (trace sc));
-            sc.tainted <- Some "mismatch"
+            stat "step.unexplained";
+            (* every step is validated from the implementation's own pre-state, so the scenario goes on; the monitors speak
+               about the implementation alone *)
+            sc.hist <- sc.hist @ diff_events op reqs pre.world post;
+            if sc.kind <> "malformed" then monitors id sc o
           end else begin
             if via_last then begin
               specviol id "c20_store_loop_variable"
